@@ -38,6 +38,10 @@ class Untranslatable(Exception):
     pass
 
 
+class OrderBroken(Exception):
+    """a side condition of the model's abstraction no longer holds in the source (program kernels)"""
+
+
 # name -> description. leaves: python source text of an attribute/subscript/call chain -> (Coq term, "Z"|"nat")
 KERNELS = [
     dict(name="start_time", file="job_shop_lib/dispatching/_dispatcher.py", cls="Dispatcher", fn="start_time",
@@ -310,20 +314,34 @@ def check_kernels(pid):
             out.append({"kernel": k["name"], "status": "fallback", "detail": str(e)})
         except (OSError, SyntaxError) as e:
             out.append({"kernel": k["name"], "status": "fallback", "detail": "source not readable: " + str(e)})
+    for k in PROGRAMS:
+        if pid not in k["props"]:
+            continue
+        try:
+            todo.append((k, translate_program(k)))
+        except OrderBroken as e:
+            out.append({"kernel": k["name"], "status": "broken", "detail": str(e)})
+        except Untranslatable as e:
+            out.append({"kernel": k["name"], "status": "fallback", "detail": str(e)})
+        except (OSError, SyntaxError) as e:
+            out.append({"kernel": k["name"], "status": "fallback", "detail": "source not readable: " + str(e)})
     d = os.path.join(common.VERIF, ".scratch")
     os.makedirs(d, exist_ok=True)
     for k, body in todo:
         path = os.path.join(d, f"Gen_{pid}_{k['name']}_{os.getpid()}.v")
-        unfold = ("gen_k " + k["unfold"]).strip()
-        text = HEADER
-        if k.get("imports"):
-            text += f"From JSL Require Import {k['imports']}.\n"
-        text += f"Definition gen_k {k['params']} : {k['rtype']} := {body}.\n"
-        text += TACTIC % {"unfold": unfold}
-        if k.get("call"):
-            text += f"Lemma gen_k_ok : forall {k['quant']}, {k['call']} = {k['model']}.\nProof. kernel. Qed.\n"
+        if k["name"].startswith("prog_"):
+            text = program_text(k, body)
         else:
-            text += f"Lemma gen_k_ok : forall {k['args']}, gen_k {k['args']} = {k['model']}.\nProof. kernel. Qed.\n"
+            unfold = ("gen_k " + k.get("unfold", "")).strip()
+            text = HEADER
+            if k.get("imports"):
+                text += f"From JSL Require Import {k['imports']}.\n"
+            text += f"Definition gen_k {k['params']} : {k['rtype']} := {body}.\n"
+            text += TACTIC % {"unfold": unfold}
+            if k.get("call"):
+                text += f"Lemma gen_k_ok : forall {k['quant']}, {k['call']} = {k['model']}.\nProof. kernel. Qed.\n"
+            else:
+                text += f"Lemma gen_k_ok : forall {k['args']}, gen_k {k['args']} = {k['model']}.\nProof. kernel. Qed.\n"
         with open(path, "w") as f:
             f.write(text)
         try:
@@ -346,3 +364,227 @@ def check_kernels(pid):
             except OSError:
                 pass
     return out
+
+
+# ---------------------------------------------------------------------------------------------------------------
+# Program kernels: whole METHOD BODIES of the dispatcher's state machine, statement by statement, in source order.
+#
+# Each accepted statement form is turned into one step of the model's state-and-exception monad (World.v); the
+# generated program must then be provably equal - for every world - to the model's own program (`update_tracking`,
+# `reset`, `dispatch`). What this ties for ALL inputs is what sampling can only probe: the ORDER of checks, writes,
+# cache invalidation and notification, that nothing was dropped or duplicated, and which vector each store goes to.
+# A statement outside the accepted forms makes the program fall back (recorded, never an alarm); a program that
+# translates but is no longer equal to the model's is a broken obligation (-> violation search).
+
+PROG_HEADER = """From JSL Require Import Base Instance Dstate Filters World.
+Set Implicit Arguments.
+Section Gen.
+Variable O : Type.
+Variable o_update : instance -> list fname -> dstate -> sop -> O -> O.
+Variable o_reset : instance -> list fname -> dstate -> O -> O.
+"""
+PROG_TACTIC = """Ltac prog :=
+  intros; try reflexivity;
+  match goal with w : world _ |- _ => destruct w as [[mf jn jf sc] c f os ss] end;
+  cbv [%(unfold)s bind ret raise get put modify of_opt set_core set_cache set_objs set_subs];
+  cbn [core wcache filt objs subs mfree jnext jfree sched fst snd];
+  repeat (match goal with
+          | |- context [if negb ?b then _ else _] => destruct b eqn:?; cbn [negb]
+          | |- context [match ?o with Some _ => _ | None => _ end] => destruct o eqn:?
+          | |- context [if ?b then _ else _] => destruct b eqn:?
+          end; cbn [core wcache filt objs subs mfree jnext jfree sched fst snd]);
+  try reflexivity; try congruence.
+"""
+
+FIELDS = {"self._machine_next_available_time": ("mfree", "Z"),
+          "self._job_next_operation_index": ("jnext", "nat"),
+          "self._job_next_available_time": ("jfree", "Z")}
+EXN = {"ValidationError": "EValidation", "UninitializedAttributeError": "EUninit", "IndexError": "EIndex"}
+NOTIFY_ITER = ("list(self.subscribers)", "tuple(self.subscribers)", "self.subscribers[:]", "self.subscribers.copy()")
+
+
+def _mkd(field, new):
+    parts = {"mfree": "(mfree d)", "jnext": "(jnext d)", "jfree": "(jfree d)", "sched": "(sched d)"}
+    parts[field] = new
+    return "set_core (fun d => mkd %(mfree)s %(jnext)s %(jfree)s %(sched)s)" % parts
+
+
+class ProgTr(Tr):
+    """statement list -> nested `bind`s; python locals become Coq variables `v_<name>`"""
+
+    def __init__(self, k):
+        super().__init__(k["leaves"])
+        self.k = k
+        self.calls = k.get("calls", {})          # exact statement text -> (step text with a hole @K@ for the rest)
+
+    def leaf(self, node):
+        key = ast.unparse(node)
+        if key in self.locals:
+            term, ty = self.locals[key]
+            return (f"(Z.of_nat {term})", "Z") if ty == "nat" else (term, ty)
+        return super().leaf(node)
+
+    def index(self, node):
+        """a list index as a nat term"""
+        key = ast.unparse(node)
+        if key in self.locals and self.locals[key][1] == "nat":
+            return self.locals[key][0]
+        if key in self.leaves and self.leaves[key][1] == "nat":
+            return f"({self.leaves[key][0]})"
+        return f"(Z.to_nat {self.num(node)})"
+
+    def bind_local(self, name, node):
+        key = ast.unparse(node)
+        if key in self.leaves and self.leaves[key][1] == "nat":
+            term, ty = f"({self.leaves[key][0]})", "nat"
+        elif key in self.locals:
+            term, ty = self.locals[key]
+        else:
+            term, ty = self.expr(node)
+        self.locals[name] = ("v_" + name, ty)
+        return f"let v_{name} := {term} in "
+
+    def stmt(self, s):
+        """-> a string with one `@K@` hole for the continuation, or a final step (no hole) for the last statement"""
+        src = ast.unparse(s)
+        if src in self.calls:
+            step, binds = self.calls[src]
+            for name, ty in binds.items():
+                self.locals[name] = ("v_" + name, ty)
+            return step
+        if isinstance(s, ast.Assign) and len(s.targets) == 1:
+            t = s.targets[0]
+            if isinstance(t, ast.Name):
+                return self.bind_local(t.id, s.value) + "@K@"
+            if isinstance(t, ast.Subscript) and ast.unparse(t.value) in FIELDS:
+                fld, ty = FIELDS[ast.unparse(t.value)]
+                val = self.num(s.value) if ty == "Z" else f"(Z.to_nat {self.num(s.value)})"
+                return "bind (" + _mkd(fld, f"(upd ({fld} d) {self.index(t.slice)} {val})") + ") (fun _ => @K@)"
+            if isinstance(t, ast.Attribute) and ast.unparse(t) in FIELDS:
+                fld, ty = FIELDS[ast.unparse(t)]
+                v = s.value
+                if isinstance(v, ast.BinOp) and isinstance(v.op, ast.Mult) and isinstance(v.left, ast.List) \
+                        and len(v.left.elts) == 1 and isinstance(v.left.elts[0], ast.Constant) \
+                        and type(v.left.elts[0].value) is int:
+                    c = v.left.elts[0].value
+                    n = self.index(v.right)
+                    lit = f"({c})" if ty == "Z" else f"{c}%nat"
+                    if ty == "nat" and c < 0:
+                        raise Untranslatable("negative counter")
+                    return "bind (" + _mkd(fld, f"(repeat {lit} {n})") + ") (fun _ => @K@)"
+            if isinstance(t, ast.Attribute) and ast.unparse(t) == "self._cache" and isinstance(v := s.value, ast.Dict) \
+                    and not v.keys:
+                return "bind (set_cache (fun _ => empty_cache)) (fun _ => @K@)"
+        if isinstance(s, ast.AugAssign) and isinstance(s.op, ast.Add) and isinstance(s.target, ast.Subscript) \
+                and ast.unparse(s.target.value) in FIELDS and isinstance(s.value, ast.Constant) \
+                and type(s.value.value) is int:
+            fld, ty = FIELDS[ast.unparse(s.target.value)]
+            i = self.index(s.target.slice)
+            c = s.value.value
+            if ty == "Z":
+                new = f"(nthZ ({fld} d) {i} + ({c}))"
+            else:
+                if c < 0:
+                    raise Untranslatable("decrement of a counter")
+                new = f"({c} + nthN ({fld} d) {i})%nat"
+            return "bind (" + _mkd(fld, f"(upd ({fld} d) {i} {new})") + ") (fun _ => @K@)"
+        if isinstance(s, ast.For) and not s.orelse and isinstance(s.target, ast.Name) and len(s.body) == 1 \
+                and ast.unparse(s.iter) in NOTIFY_ITER:
+            b = s.body[0]
+            var = s.target.id
+            if isinstance(b, ast.Expr) and isinstance(b.value, ast.Call) and isinstance(b.value.func, ast.Attribute) \
+                    and ast.unparse(b.value.func.value) == var and not b.value.keywords:
+                meth = b.value.func.attr
+                args = [ast.unparse(a) for a in b.value.args]
+                if meth == "update" and args == [self.k.get("sop_arg", "scheduled_operation")]:
+                    return ("bind get (fun w => bind (set_objs (notify_all (o_update I (filt w) (core w) x) (subs w))) "
+                            "(fun _ => @K@))")
+                if meth == "reset" and args == []:
+                    return ("bind get (fun w => bind (set_objs (notify_all (o_reset I (filt w) (core w)) (subs w))) "
+                            "(fun _ => @K@))")
+        if isinstance(s, ast.If) and not s.orelse and len(s.body) == 1 and isinstance(s.body[0], ast.Raise) \
+                and isinstance(s.body[0].exc, ast.Call) and ast.unparse(s.body[0].exc.func) in EXN:
+            e = EXN[ast.unparse(s.body[0].exc.func)]
+            return f"bind (if {self.boolean(s.test)} then raise {e} else ret tt) (fun _ => @K@)"
+        raise Untranslatable("unsupported statement: " + src[:90])
+
+    def program(self, stmts):
+        steps = []
+        for s in stmts:
+            if isinstance(s, ast.Expr) and isinstance(s.value, ast.Constant):
+                continue
+            steps.append(self.stmt(s))
+        # Side condition of the model's abstraction: observers are modelled as reading the dispatcher through
+        # from-scratch queries (o_update / o_reset receive the dispatcher state, not the cache), which is what the
+        # code does only if the cache is emptied BEFORE the notification loop. In the monadic model the two steps
+        # commute, so Coq cannot see this reordering; it is checked here on the statement sequence.
+        inval = [i for i, st in enumerate(steps) if "set_cache (fun _ => empty_cache)" in st]
+        notif = [i for i, st in enumerate(steps) if "notify_all" in st]
+        if notif and inval and max(inval) > min(notif):
+            raise OrderBroken("the cache is invalidated AFTER the subscribers are notified: observers that query the "
+                              "dispatcher during update()/reset() would read answers cached before the state changed")
+        out = "ret tt"
+        for st in reversed(steps):
+            out = st.replace("@K@", out) if "@K@" in st else st
+        return out
+
+
+W = "(core w)"
+PROGRAMS = [
+    dict(name="prog_update_tracking", file="job_shop_lib/dispatching/_dispatcher.py", cls="Dispatcher",
+         fn="_update_tracking_attributes", params="(I : instance) (x : sop)", args="I x",
+         leaves={"scheduled_operation.job_id": ("s_job x", "nat"), "scheduled_operation.machine_id": ("s_mach x", "nat"),
+                 "scheduled_operation.end_time": ("s_end I x", "Z")},
+         model="update_tracking o_update I x", unfold="update_tracking",
+         props=["C01", "C02", "C05", "C09", "C10"]),
+    dict(name="prog_dispatcher_reset", file="job_shop_lib/dispatching/_dispatcher.py", cls="Dispatcher",
+         fn="reset", params="(I : instance)", args="I",
+         leaves={"self.instance.num_machines": ("num_machines I", "nat"), "self.instance.num_jobs": ("num_jobs I", "nat")},
+         calls={"self.schedule.reset()":
+                ("bind (set_core (fun d => mkd (mfree d) (jnext d) (jfree d) (repeat [] (num_machines I)))) "
+                 "(fun _ => @K@)", {})},
+         model="reset o_reset I", unfold="reset",
+         props=["C02", "C05", "C10", "C12"]),
+    dict(name="prog_dispatch", file="job_shop_lib/dispatching/_dispatcher.py", cls="Dispatcher",
+         fn="dispatch", params="(I : instance) (r : request)", args="I r",
+         prologue="bind (of_opt (get_op I (r_job r) (r_pos r)) EOther) (fun o => bind get (fun w => @K@))",
+         leaves={"self.is_operation_ready(operation)": (f"(nthN (jnext {W}) (r_job r) =? r_pos r)%nat", "bool")},
+         calls={"if machine_id is None:\n    machine_id = operation.machine_id":
+                ("bind (resolve_machine o (r_mach r)) (fun v_machine_id => @K@)", {"machine_id": "Z"}),
+                "start_time = self.start_time(operation, machine_id)":
+                (f"bind (of_opt (py_index (length (mfree {W})) v_machine_id) EIndex) (fun mi => "
+                 f"let v_start_time := start_time {W} (r_job r) mi in @K@)", {"start_time": "Z"}),
+                "scheduled_operation = ScheduledOperation(operation, start_time, machine_id)":
+                ("bind (if existsb (fun k => Z.of_nat k =? v_machine_id) (machines o) then ret tt else raise EValidation) "
+                 "(fun _ => let x := mksop (r_job r) (r_pos r) v_start_time (Z.to_nat v_machine_id) in @K@)", {}),
+                "self.schedule.add(scheduled_operation)": ("bind (schedule_add I x) (fun _ => @K@)", {}),
+                "self._update_tracking_attributes(scheduled_operation)":
+                ("bind (update_tracking o_update I x) (fun _ => @K@)", {})},
+         model="dispatch o_update I r", unfold="dispatch start_time",
+         props=["C01", "C02", "C09", "C10"]),
+    dict(name="prog_schedule_reset", file="job_shop_lib/_schedule.py", cls="Schedule", fn="reset",
+         params="(I : instance)", args="I", leaves={},
+         calls={"self.schedule = [[] for _ in range(self.instance.num_machines)]":
+                ("bind (set_core (fun d => mkd (mfree d) (jnext d) (jfree d) (repeat [] (num_machines I)))) "
+                 "(fun _ => @K@)", {})},
+         model="set_core (fun d => mkd (mfree d) (jnext d) (jfree d) (repeat [] (num_machines I)))", unfold="",
+         props=["C12"]),
+]
+
+
+def translate_program(k):
+    fn = find_function(os.path.join(common.REPO, k["file"]), k["cls"], k["fn"])
+    tr = ProgTr(k)
+    body = tr.program(fn.body)
+    if k.get("prologue"):
+        body = k["prologue"].replace("@K@", body)
+    return body
+
+
+def program_text(k, body):
+    text = PROG_HEADER
+    text += f"Definition gen_p {k['params']} : M O unit := {body}.\n"
+    text += PROG_TACTIC % {"unfold": ("gen_p " + k["unfold"]).strip()}
+    text += f"Lemma gen_p_ok : forall {k['args']} (w : world O), gen_p {k['args']} w = ({k['model']}) w.\n"
+    text += "Proof. prog. Qed.\nEnd Gen.\n"
+    return text
